@@ -95,7 +95,97 @@ pub fn state_key<K: KeyT>(cfg: &Config, op_kind: &str, st: &griddle::hash_map::V
     splitmix64(kind_hash(op_kind) ^ abstract_state(st).wrapping_mul(0x9E37_79B9_7F4A_7C15) ^ ((K::CLASS as u64) << 56) ^ ((hmode as u64) << 60) ^ (cfg.universe as u64 == 1) as u64)
 }
 
+/// Logic-error keys (C05): Hash/Eq are inconsistent, so results and contents are unspecified.
+/// Only memory safety is judged: the ledger (use after drop, double storage), I1, ASan / Miri
+/// and the canaries. After every call the models adopt what the collections hold.
+fn run_chaos<K: KeyT, V: ValT>(prop: Prop, spec: &RunSpec, seed: u64) -> RunOutcome {
+    begin_run();
+    let mut out = RunOutcome::default();
+    let mut w: World<K, V> = World::new(&spec.cfg);
+    ctx::with(|c| c.chaos = Some(ctx::Chaos::from_seed(seed)));
+    let hmode = spec.cfg.map_hashers.first().or(spec.cfg.set_hashers.first()).map_or(0, |h| h.mode as u8);
+    let mut stopped = false;
+    for (i, op) in spec.ops.iter().enumerate() {
+        ctx::chaos_tick(i);
+        let so = w.exec(i, op, None, false);
+        out.steps += 1;
+        out.op_kinds.push(op.kind());
+        if let Some(st) = so.before.as_ref() {
+            if st.split {
+                out.nontrivial = true;
+            }
+            out.states.push(splitmix64(state_key::<K>(&spec.cfg, op.kind(), st, hmode) ^ 0xC4A0));
+        }
+        let mut anomalies: Vec<Anomaly> = Vec::new();
+        let mut internal_panic = false;
+        for a in so.anomalies {
+            match a.class {
+                // memory-safety evidence stays valid
+                "ledger" | "I1-cursor" => anomalies.push(a),
+                // a panic that is not one of the documented ones came out of the collection:
+                // its state is unknown from here on
+                // (a documented panic the model did not expect - `map[&k]` on a key that cannot
+                // be found any more - happens before anything is modified)
+                "unexpected-panic" if a.detail.contains("panic:documented:index") => {}
+                "unexpected-panic" => {
+                    internal_panic = true;
+                    out.foreign.push("chaos-panic");
+                    if std::env::var_os("GSIM_DEBUG_CHAOS").is_some() {
+                        eprintln!("chaos-panic {} {}: {}", a.op_kind, a.op_index, a.detail);
+                    }
+                }
+                // wrong results are what logic errors buy
+                _ => {
+                    if std::env::var_os("GSIM_DEBUG_CHAOS").is_some() && matches!(a.class, "three-tables" | "live-tables" | "I2-headroom" | "capacity-below-len") {
+                        eprintln!("chaos-foreign {} {} {}: {}", a.class, a.op_kind, a.op_index, a.detail);
+                    }
+                }
+            }
+        }
+        if internal_panic || so.injected.is_some() {
+            stopped = true;
+        } else {
+            match w.adopt_observed(None) {
+                Ok(()) => anomalies.extend(w.chaos_structural(i, op.kind())),
+                Err(_) => {
+                    out.foreign.push("chaos-panic");
+                    stopped = true;
+                }
+            }
+        }
+        if absorb(prop, &mut out, anomalies, false) {
+            stopped = true;
+        }
+        if stopped {
+            break;
+        }
+    }
+    let (ph, pe) = ctx::with(|c| c.chaos.map_or((0, 0), |ch| (ch.perturbed_hashes, ch.perturbed_eqs)));
+    if ph > 0 {
+        *out.faults.entry("inconsistent-hash".to_string()).or_insert(0) += ph;
+    }
+    if pe > 0 {
+        *out.faults.entry("inconsistent-eq".to_string()).or_insert(0) += pe;
+    }
+    out.probes.push("logic-error-keys-run");
+    if stopped {
+        std::mem::forget(w);
+        ctx::with(|c| c.chaos = None);
+    } else {
+        // destructors must be safe too; leaks are not judged (unspecified, not undefined)
+        let n = spec.ops.len();
+        let a = w.teardown(n, false);
+        ctx::with(|c| c.chaos = None);
+        let a: Vec<Anomaly> = a.into_iter().filter(|a| a.class == "ledger").collect();
+        absorb(prop, &mut out, a, false);
+    }
+    out
+}
+
 fn run_generic<K: KeyT, V: ValT>(prop: Prop, spec: &RunSpec, want_transcript: bool) -> RunOutcome {
+    if let Some(seed) = spec.cfg.chaos {
+        return run_chaos::<K, V>(prop, spec, seed);
+    }
     begin_run();
     let mut out = RunOutcome::default();
     let mut w: World<K, V> = World::new(&spec.cfg);
